@@ -144,6 +144,8 @@ def evaluate(spec, props, cap=20000, wall=30):
         finally:
             signal.alarm(0)
     signal.signal(signal.SIGALRM, old)
+    if tr.counters.get('hook_log_incomplete'):
+        oracle_errors.append((props[0] if props else '*', 'HOOK_LOG_INCOMPLETE ' + repr(cx.get('hook_audit_witness'))))
     kinds = {}
     for e in tr.events:
         kinds[e[0]] = kinds.get(e[0], 0) + 1
